@@ -191,18 +191,18 @@ namespace TAO_PEGTL_NAMESPACE
 #endif
          }
 #if defined( TAO_PEGTL_VERIF )
-         if( internal::verif::hooks.buffer_read != nullptr ) {
-            const std::size_t verif_requested = ( std::min )( buffer_free_after_end(), ( std::max )( amount - buffer_occupied(), Chunk ) );
-            const std::size_t verif_got = m_reader( m_end, verif_requested );
-            m_end += verif_got;
-            internal::verif::hooks.buffer_read( this, verif_requested, verif_got );
-            if( internal::verif::hooks.buffer_window != nullptr ) {
-               internal::verif::hooks.buffer_window( this, m_buffer.get(), m_maximum, m_current.data, m_end );
-            }
-            return;
-         }
+         const std::size_t verif_requested = ( std::min )( buffer_free_after_end(), ( std::max )( amount - buffer_occupied(), Chunk ) );
+         const char* const verif_end = m_end;
 #endif
          m_end += m_reader( m_end, ( std::min )( buffer_free_after_end(), ( std::max )( amount - buffer_occupied(), Chunk ) ) );
+#if defined( TAO_PEGTL_VERIF )
+         if( internal::verif::hooks.buffer_read != nullptr ) {
+            internal::verif::hooks.buffer_read( this, verif_requested, std::size_t( m_end - verif_end ) );
+         }
+         if( internal::verif::hooks.buffer_window != nullptr ) {
+            internal::verif::hooks.buffer_window( this, m_buffer.get(), m_maximum, m_current.data, m_end );
+         }
+#endif
       }
 
       template< rewind_mode M >
